@@ -13,7 +13,8 @@ cp patch.diff $D/patch.diff
 rm -rf $D/zz_demo; cp -r zz_demo $D/zz_demo 2>/dev/null
 [ -f meta.json ] && cp meta.json $D/meta.agent.json
 DEMO=$(python3 -c "import json;print(json.load(open('$W/meta.json')).get('demo_cmd',''))" 2>/dev/null)
-case "$DEMO" in *"go run"*) DEMOCMD="go run ./zz_demo";; *) DEMOCMD="go test -mod=mod -vet=off -count=1 ./zz_demo/...";; esac
+TAGS=""; case "$DEMO" in *"-tags verif"*) TAGS="-tags verif";; esac
+case "$DEMO" in *"go run"*) DEMOCMD="go run $TAGS ./zz_demo";; *) DEMOCMD="go test -mod=mod -vet=off -count=1 $TAGS ./zz_demo/...";; esac
 # make sure the change is applied
 git apply --check -R patch.diff 2>/dev/null || git apply patch.diff
 echo "== build"; go build ./... ; B=$?
